@@ -9,6 +9,10 @@ NOTE = ("Trusted: Lean 4.33 kernel; axioms propext, Classical.choice, Quot.sound
         "harness/translate.py; the correspondence check (differential testing, generator quality bounds what it sees). ")
 
 CHECKS = {
+    "C16": dict(
+        text="Proved on the model of the traversal and identifier generation: every element object reachable from the circuit, nested in containers at any depth, is visited exactly once (elements_nodup_complete); the running identifiers are exactly 0..N-1 in traversal order (running_ids_are_range); for every type the per-type identifiers are 1..k without gaps (type_counts_from_one); '{parameter}_{index}' names are injective for arbitrary parameter symbols and the index can be read back by splitting at the last underscore (param_names_injective). Tie: traversal order, both identifier maps and display names compared with the real methods for exhaustive small and random circuits (nested containers, repeated types, shared objects). PARTIAL: uniqueness of display names in the presence of labels and the use of the same maps by the consumers (fit identifiers; sympy variables and diagram labels via C20) are checked on the implementation.",
+        ref="§4 C16", tech=TECH_H,
+        note=NOTE + "Object identity is modelled by an integer per element object."),
     "C03": dict(
         text="PARTIAL. Proved for ALL trees of elements (any depth/branching) at token level: parsing the basic-syntax tokens of a circuit pushes exactly its normal form (same-kind nesting merged, singleton series unwrapped, order preserved) and leaves the rest of the parser stack untouched (roundtrip_structure, roundtrip_structure_registry against the current registry) - the reason sub-circuits cannot capture siblings. The remaining clauses (parameter lists, labels, limits, sub-circuits, numbers, alternative spellings, identical re-serialisation, deep copies) are decided by the generator-as-oracle stream: a grammar-directed printer that knows the intended tree prints every circuit in alternative spellings; parse_cdc must return the intended circuit; every text is also parsed by the Lean model of tokenizer+parser, which reproduces float() bit-exactly (round-to-nearest-even over exact rationals), so values are compared exactly.",
         ref="§4 C03", tech=TECH_H,
